@@ -1,0 +1,34 @@
+//go:build verif
+
+package actor
+
+// Contracts for property C33, accounting kernel of a share: what a target reported
+// as failed for a batch it accepted is recorded before the next batch goes out (and
+// before returning), and on a peer-level error exactly the unsent remainder - the
+// failed batch included - goes back to the caller for redistribution.
+
+//@ property C33
+
+//@ ghost local sb_resp *internalpb.RelocateBatchResponse
+//@ ghost local sb_fails []*internalpb.RelocationFailure
+//@ ghost local sb_have bool
+//@ ghost local sb_sent int
+
+//@ func (*relocationWorker).sendBatches(w, ctx, target, requests, failures)
+//@   ghost entry sb_resp = nil
+//@   ghost entry sb_have = false
+//@   ghost entry sb_sent = 0
+//@   loop 1 invariant accepted-batches-are-accounted: sb_resp == nil && !sb_have && sb_sent == rangeindex + 1 && -1 <= rangeindex && rangeindex < len(requests)
+//@   at call 1 of (*relocationWorker).sendBatch assert nothing-unrecorded-when-the-next-batch-goes-out: sb_resp == nil
+//@   at call 1 of (*relocationWorker).sendBatch assert sends-the-batches-in-order: arg3 == requests[sb_sent]
+//@   at call 1 of (*relocationWorker).sendBatch ghost sb_resp = ite(result1 == nil, result0, nil)
+//@   at call 1 of (*relocationWorker).sendBatch ghost sb_sent = sb_sent + ite(result1 == nil, 1, 0)
+//@   at call 1 of (*RelocateBatchResponse).GetFailures assert reads-the-answer-to-this-batch: arg0 == sb_resp
+//@   at call 1 of (*RelocateBatchResponse).GetFailures ghost sb_fails = result
+//@   at call 1 of (*RelocateBatchResponse).GetFailures ghost sb_have = true
+//@   at call 1 of (*relocationFailures).merge assert records-what-the-target-reported: sb_have && arg1 == sb_fails && arg0 == failures
+//@   at call 1 of (*relocationFailures).merge ghost sb_resp = nil
+//@   at call 1 of (*relocationFailures).merge ghost sb_have = false
+//@   ensures every-reported-failure-is-recorded: sb_resp == nil
+//@   ensures all-sent-when-no-error: result1 == nil ==> sb_sent == len(requests) && len(result0) == 0
+//@   ensures unsent-remainder-goes-back: result1 != nil ==> len(result0) == len(requests) - sb_sent && len(result0) >= 1 && block(result0) == block(requests) && offset(result0) == offset(requests) + sb_sent
